@@ -570,7 +570,20 @@ impl WalkBuilder {
                             }
                         }
                     }
-                    (p.to_path_buf(), Some(WalkEventIter::from(wd)))
+                    // When the walk is confined to one file system, remember
+                    // the root's device: walkdir yields directories on other
+                    // devices but never descends into them, which matters
+                    // when such a directory is skipped (see `Walk::next`).
+                    // If the device can't be determined, walkdir reports
+                    // that error itself.
+                    let root_device = if self.same_file_system {
+                        device_num(p).ok()
+                    } else {
+                        None
+                    };
+                    let mut it = WalkEventIter::from(wd);
+                    it.root_device = root_device;
+                    (p.to_path_buf(), Some(it))
                 }
             })
             .collect::<Vec<_>>()
@@ -1012,7 +1025,22 @@ impl Iterator for Walk {
                         Ok(should_skip) => should_skip,
                     };
                     if should_skip {
-                        self.it.as_mut().unwrap().it.skip_current_dir();
+                        // walkdir yields a directory that lives on another
+                        // file system than its root, but it never descends
+                        // into it. Calling skip_current_dir for such a
+                        // directory would pop the listing of its *parent*
+                        // and silently drop the parent's remaining entries.
+                        let it = self.it.as_mut().unwrap();
+                        let descends = match it.root_device {
+                            Some(root_device) if ent.depth() > 0 => {
+                                device_num(ent.path())
+                                    .map_or(true, |dev| dev == root_device)
+                            }
+                            _ => true,
+                        };
+                        if descends {
+                            it.it.skip_current_dir();
+                        }
                         // Still need to push this on the stack because
                         // we'll get a WalkEvent::Exit event for this dir.
                         // We don't care if it errors though.
@@ -1051,6 +1079,9 @@ struct WalkEventIter {
     depth: usize,
     it: walkdir::IntoIter,
     next: Option<Result<walkdir::DirEntry, walkdir::Error>>,
+    /// The device number of the root path. Present if and only if the walk
+    /// is restricted to the root's file system.
+    root_device: Option<u64>,
 }
 
 #[derive(Debug)]
@@ -1062,7 +1093,12 @@ enum WalkEvent {
 
 impl From<WalkDir> for WalkEventIter {
     fn from(it: WalkDir) -> WalkEventIter {
-        WalkEventIter { depth: 0, it: it.into_iter(), next: None }
+        WalkEventIter {
+            depth: 0,
+            it: it.into_iter(),
+            next: None,
+            root_device: None,
+        }
     }
 }
 
